@@ -135,7 +135,8 @@ pub fn rule_hook(mt: &str, tag: &str, src: &mut Src) -> Option<(String, Vec<Comp
 pub fn gen_rule_msg(mt: &str, src: &mut Src) -> GenMsg {
     let o = crate::layout::GenOpts {
         star_max: 3,
-        allow_cap: false,
+        allow_cap: true,
+        over_cap: true,
     };
     gen_message(mt, src, &o, Some(&rule_hook))
 }
